@@ -14,7 +14,7 @@ use serde_json::{json, Value};
 pub const DEF: PropDef = PropDef {
     id: "C17",
     level: "exploration",
-    rule: "all expression trees (built directly as AST values, so every tree shape incl. those text cannot spell) with <=3 leaves over the full leaf alphabet {0,1,2.5,3,1e308, four strings (plain, empty, with CR LF and line feed, with tab / backslash / non-ASCII / outer blanks), true, null, mysterious, variable, pronoun, subscript, call, roll, and roll / subscript applied to literals} and constructors {+ - * / with single and 2-element list operands, <, is, and, unary - and not on leaves}, and all trees with <=4 leaves over the numeric core {0,1,2.5,1e308,x,-1,-x} (thorough: also 5 leaves over {0,2.5,x}) with + - * / and list operands, and all trees with <=3 leaves over 12 boundary constants {0,-0,1,0.1,3,5e-324,2^32,2^53+1,f64::MAX,1e-308,-(0),x}; plus poetic literals as assignment right-hand sides; each expression is given to NumericConstantFolder and SimpleStringConstantFolder and evaluated by the real ProduceVal under three preludes that bind the variables differently; oracle: folder Ok(v) => evaluation yields exactly v (bitwise, NaN by class) under every prelude; folder must be Ok for every tree made only of number leaves, unary minus and + - * /; must be Err for every tree containing a read; non-trivial = expressions with an operator; distinct = distinct tree",
+    rule: "all expression trees (built directly as AST values, so every tree shape incl. those text cannot spell) with <=3 leaves over the full leaf alphabet {0,1,2.5,3,1e308, four strings (plain, empty, with CR LF and line feed, with tab / backslash / non-ASCII / outer blanks), true, null, mysterious, variable, pronoun, subscript, call, roll, and roll / subscript applied to literals} and constructors {+ - * / with single and 2-element list operands, <, is, and, unary - and not on leaves, singly and doubled}, and all trees with <=4 leaves over the numeric core {0,1,2.5,1e308,x,-1,-x} (thorough: also 5 leaves over {0,2.5,x}) with + - * / and list operands, and all trees with <=3 leaves over 12 boundary constants {0,-0,1,0.1,3,5e-324,2^32,2^53+1,f64::MAX,1e-308,-(0),x}; plus poetic literals as assignment right-hand sides; each expression is given to NumericConstantFolder and SimpleStringConstantFolder and evaluated by the real ProduceVal under three preludes that bind the variables differently; oracle: folder Ok(v) => evaluation yields exactly v (bitwise, NaN by class) under every prelude; folder must be Ok for every tree made only of number leaves, unary minus and + - * /; must be Err for every tree containing a read; non-trivial = expressions with an operator; distinct = distinct tree",
     assumptions: &["evaluation through the public ProduceVal visitor on an environment prepared by executing the prelude", "the reference predicate 'constant' / 'contains a read' is syntactic on the tree"],
     build,
     exhaustive: true,
@@ -71,10 +71,13 @@ const NUM_OPS: &[BinOp] = &[BinOp::Plus, BinOp::Minus, BinOp::Times, BinOp::Over
 fn full_space() -> Space<Expr> {
     let l: Space<Expr> = Space::of(full_leaves());
     let u: Space<Expr> = Space::union(vec![l.clone(), l.map(|e| Expr::Un(UnOp::Neg, Box::new(e))), l.map(|e| Expr::Un(UnOp::Not, Box::new(e)))]);
+    // two prefix operators in a row, equal and different
+    let u2: Space<Expr> = Space::union(vec![u.map(|e| Expr::Un(UnOp::Neg, Box::new(e))), u.map(|e| Expr::Un(UnOp::Not, Box::new(e)))]);
+    let e2u2 = bins(FULL_OPS, &u2, &l);
     let e2u = bins(FULL_OPS, &u, &u);
     let e2 = bins(FULL_OPS, &l, &l);
     let e2n = e2.map(|e| Expr::Un(UnOp::Neg, Box::new(e)));
-    Space::union(vec![u.clone(), e2u, e2n, bins(FULL_OPS, &e2, &l), bins(FULL_OPS, &l, &e2), bins_list(FULL_OPS, &l, &l, &l)])
+    Space::union(vec![u.clone(), u2, e2u2, e2u, e2n, bins(FULL_OPS, &e2, &l), bins(FULL_OPS, &l, &e2), bins_list(FULL_OPS, &l, &l, &l)])
 }
 
 fn numeric_space(leaves: Vec<Expr>, max: usize) -> Space<Expr> {
@@ -102,7 +105,7 @@ pub const PRELUDES: &[&str] = &[
     "put 2.5 into x\nrock w with x\nrock q with x, x, x\nf takes k\ngive back x\n\nput x into x\n",
 ];
 
-pub const POETIC: &[&[&str]] = &[&["a"], &["abc", "de"], &["a", ".", "bc"], &["abcdefghij"], &["ab", ".", "c", ".", "d"], &[".", "abc"], &["a", "'s"], &["abcde", "-fg", "h"]];
+pub const POETIC: &[&[&str]] = &[&["a"], &["abc", "de"], &["a", ".", "bc"], &["abcdefghij"], &["ab", ".", "c", ".", "d"], &[".", "abc"], &["a", "'s"], &["abcde", "-fg", "h"], &["rock'n'roll"], &["o'clock"], &["ain't"], &["'cause"], &["rockin'"], &["ain't", "o'clock"], &["été"], &["o'clock", "."]];
 
 pub struct C17 {
     fams: Vec<(String, Space<Expr>)>,
